@@ -35,8 +35,9 @@ type Entry struct {
 //	run | stop | cancel | wait | release | end
 //	reload  Cb ("some"|"nil"|"err"), Cfg
 //	exit    C, Err (Go-flavoured error tokens)
-//	park    Sub (arms a park on the next log record containing Sub)
-//	waitpark
+//	park    Sub (arms a park on the next log record containing Sub), P (park slot, default 0)
+//	waitpark P | release P
+//	hold C (child C's next ReloadWithConfig/Reload blocks inside the call) | waithold C | unhold C
 type Op struct {
 	Op  string  `json:"op"`
 	Cb  string  `json:"cb,omitempty"`
@@ -44,6 +45,7 @@ type Op struct {
 	C   int     `json:"c,omitempty"`
 	Err string  `json:"err,omitempty"`
 	Sub string  `json:"sub,omitempty"`
+	P   int     `json:"p,omitempty"`
 }
 
 type Scenario struct {
@@ -80,7 +82,7 @@ type env struct {
 	open   map[string]bool // API calls that have not returned
 
 	cancel context.CancelFunc
-	park   *director.Park
+	park   map[int]*director.Park
 	parks  int
 }
 
@@ -201,7 +203,8 @@ func (e *env) census() {
 }
 
 func runScenario(sc Scenario) {
-	e := &env{sc: sc, rec: &director.Recorder{}, ph: &director.ParkHandler{}, open: map[string]bool{}}
+	e := &env{sc: sc, rec: &director.Recorder{}, ph: &director.ParkHandler{}, open: map[string]bool{},
+		park: map[int]*director.Park{}}
 	for i, sp := range sc.Pool {
 		c, m := makeChild(i, sp, e.rec)
 		e.children = append(e.children, c)
@@ -247,18 +250,33 @@ func runScenario(sc Scenario) {
 			if m == nil {
 				continue
 			}
-			select {
-			case m.release <- relMsg{op.Err}:
-			case <-time.After(500 * time.Millisecond):
+			// rendezvous with the child's Run; given up early when no Run of the child is in
+			// progress any more (it was stopped or cancelled in the meantime)
+			delivered := false
+			deadline := time.Now().Add(500 * time.Millisecond)
+			for !delivered && time.Now().Before(deadline) {
+				select {
+				case m.release <- relMsg{op.Err}:
+					delivered = true
+				case <-time.After(2 * time.Millisecond):
+					m.mu.Lock()
+					gone := m.ever && m.active == 0
+					m.mu.Unlock()
+					if gone {
+						deadline = time.Now()
+					}
+				}
+			}
+			if !delivered {
 				e.rec.Emit("Note exit-not-delivered %d", op.C)
 			}
 		case "park":
-			e.park = e.ph.ParkOn(op.Sub)
+			e.park[op.P] = e.ph.ParkOn(op.Sub)
 			e.parks++
 			e.rec.Emit("Note park-armed %s", strings.ReplaceAll(op.Sub, " ", "_"))
 		case "waitpark":
-			if e.park != nil {
-				if e.park.WaitReached(2 * time.Second) {
+			if p := e.park[op.P]; p != nil {
+				if p.WaitReached(2 * time.Second) {
 					e.rec.Emit("Note park-reached")
 				} else {
 					e.rec.Emit("Note park-missed")
@@ -267,9 +285,30 @@ func runScenario(sc Scenario) {
 			quiet = e.quiesce() && quiet
 			e.census()
 		case "release":
-			if e.park != nil {
-				e.park.Release()
+			if p := e.park[op.P]; p != nil {
+				p.Release()
 				e.rec.Emit("Note park-released")
+			}
+		case "hold":
+			if m := e.mocks[op.C]; m != nil {
+				m.armHold()
+				e.parks++
+				e.rec.Emit("Note hold-armed %d", op.C)
+			}
+		case "waithold":
+			if m := e.mocks[op.C]; m != nil {
+				if m.waitHolding(2 * time.Second) {
+					e.rec.Emit("Note park-reached hold")
+				} else {
+					e.rec.Emit("Note hold-missed %d", op.C)
+				}
+			}
+			quiet = e.quiesce() && quiet
+			e.census()
+		case "unhold":
+			if m := e.mocks[op.C]; m != nil {
+				m.unhold()
+				e.rec.Emit("Note hold-released %d", op.C)
 			}
 		case "wait":
 			quiet = e.quiesce() && quiet
@@ -278,6 +317,11 @@ func runScenario(sc Scenario) {
 		}
 	}
 	e.ph.ReleaseAll()
+	for _, m := range e.mocks {
+		if m != nil {
+			m.unhold()
+		}
+	}
 	quiet = e.quiesce() && quiet
 	e.snapshot()
 	// final observations
